@@ -929,15 +929,38 @@ static void case_mix(rng_t *r, ctx_t *c) {
         decode_and_compare(cp, NULL, "C17", "copy", 0);
         dump_t dc; uint64_t ds = rng_u64(r);
         dump_file(path, &du, ds); dump_file(cp, &dc, ds);
+        /* signals with omitted blocks in the source: jls_copy re-writes those blocks as gaps (known finding,
+         * reported once per file under its own key); every other signal is compared in full */
+        uint8_t has_omitted[256]; memset(has_omitted, 0, sizeof(has_omitted));
+        int any_omitted = 0;
+        {
+            jd_t sd;
+            if (!jd_load(&sd, path)) {
+                jd_decode(&sd);
+                for (int s = 1; s < 256; ++s) {
+                    const jd_list_t *il = &sd.sig[s].index[JD_TT_FSR][1];
+                    for (size_t k = 0; k < il->n; ++k) {
+                        const jd_chunk_t *ic = &sd.ch[il->idx[k]];
+                        if (ic->plen < 16) continue;
+                        uint32_t cnt; memcpy(&cnt, ic->payload + 8, 4);
+                        for (uint32_t e = 0; e < cnt && 16 + 8 * (uint64_t) (e + 1) <= ic->plen; ++e) { uint64_t off; memcpy(&off, ic->payload + 16 + 8 * e, 8); if (!off) has_omitted[s] = 1; }
+                    }
+                    if (has_omitted[s] && (du.h_len[s] != dc.h_len[s] || du.h_samples[s] != dc.h_samples[s] || du.h_stats[s] != dc.h_stats[s])) any_omitted = 1;
+                }
+                jd_free(&sd);
+            }
+        }
+        dump_compare_skip_fsr(has_omitted);
         dump_compare(&du, &dc, "C17", "closed", "source vs copy");
+        dump_compare_skip_fsr(NULL);
+        if (any_omitted) v_violation("C17", "closed|omitted-blocks-copied-as-gaps", NULL, "a signal with omitted level-0 blocks reads back differently from the copy (length %s)", "samples or statistics");
         decode_and_compare(cp, NULL, "C05", "copy", 0);
     }
     int omit_used = 0; for (int s = 1; s < 256; ++s) if (m.sig[s].omit_ever) omit_used = 1;
     v_feature("C17", chunks > 12, "closed|%s|levels=%d|omit=%d", feat, levels, omit_used);
     v_count("C17", "copies_compared", 1);
-    unlink(cp);
+    if (!getenv("VERIF_KEEP")) { unlink(cp); unlink(path); }
     model_free(&m); prog_free(&p);
-    unlink(path);
 }
 
 /* ------------------------------------------------------------------------------------- */
